@@ -285,6 +285,10 @@ impl Exec {
     }
     Arc::new(Exec { tx: Mutex::new(Some(tx)), outstanding, spawned: AtomicUsize::new(0), handle: Mutex::new(None), extra: Mutex::new(hs) })
   }
+  /// Number of spawned tasks that have not finished yet.
+  pub fn outstanding(&self) -> usize {
+    *self.outstanding.0.lock().unwrap()
+  }
   /// Blocks until every spawned task has finished; false on timeout.
   pub fn wait_idle(&self, timeout: Duration) -> bool {
     let deadline = std::time::Instant::now() + timeout;
